@@ -2456,8 +2456,10 @@ Proof.
       { destruct v; [apply Nat.eqb_eq in Hvl; lia|exact I]. }
       { rewrite Hmask. exact Hmasked. }
       { intros H. apply Hhd. lia. }
-      { destruct v; [|exact I]. destruct Hcl as [Hcl|Hcl]; [left; exact Hcl|right].
-        assert (length info = slots es) by (apply list_info_length; [lia|apply Nat.eqb_eq in Hvl; lia]). lia. }
+      { destruct v as [vs0|]; [|exact I]. destruct Hcl as [Hcl|Hcl]; [left; exact Hcl|right].
+        apply Nat.eqb_eq in Hvl.
+        assert (Hli : length (list_info offs (Some vs0)) = slots es) by (apply list_info_length; lia).
+        rewrite Hli. lia. }
       fold info items spn in G3, G4, G5, G7. rewrite Hes' in G4, G5, G6, G7.
       assert (A5 : cd - num_def_levels m = mlev (map cmeaning cs)) by lia.
       assert (A6 : cd - num_def_levels m <= SPECIAL_THRESHOLD) by lia.
@@ -2479,7 +2481,7 @@ Proof.
       rewrite Hll.
       split; [split; [exact G1|exact I1]|]. split; [split; [|exact I2]|].
       { rewrite map_map. change (map (fun x => lm (raw_of_call x)) cs) with (map cmeaning cs). exact G2. }
-      split; [rewrite G3, I3, Hmask; reflexivity|]. split; [intros _; apply I4; left; exact G7|]. split.
+      split; [rewrite G3, I3, Hmask; reflexivity|]. split; [intros _; apply I4; left; symmetry; exact G7|]. split.
       { rewrite I5. cbn [spec_items]. fold info. fold items. rewrite repeat_length. destruct cs; reflexivity. }
       rewrite I6. unfold sumr. cbn [map fold_right]. cbn [raw_of_call raw_num_specials]. fold info. fold spn. lia.
 Qed.
@@ -2588,12 +2590,10 @@ Proof. intros H. rewrite <- (rev_involutive l), H. reflexivity. Qed.
 
 Theorem roundtrip_correct cs outs :
   spec_top cs = Some outs -> c27_dom cs = true ->
-  Known_C27_list_of_nullable_struct_repdef cs = false ->
-  Known_C27_allvalid_list_over_nullable_items cs = false ->
   Known_C27_allvalid_list_inside_nullable_struct cs = false ->
   roundtrip cs = Ok (rev outs).
 Proof.
-  intros Hspec Hdom HK12 HK3 HK6.
+  intros Hspec Hdom HK6.
   unfold c27_dom in Hdom. apply andb_true_iff in Hdom as [Hdom HT]. apply andb_true_iff in Hdom as [Hdom Hrows].
   apply andb_true_iff in Hdom as [Hnf Hleaf]. apply N.leb_le in HT.
   destruct cs as [|c0 cs']; [discriminate|]. apply Nat.leb_le in Hrows.
@@ -2608,9 +2608,6 @@ Proof.
   set (st0 := (es0, max_rep, max_def, @nil meaning)).
   set (es_f := st_es (a_layers rs st0)).
   set (total := length es_f).
-  (* the bookkeeping class *)
-  unfold Known_C27_list_of_nullable_struct_repdef in HK12.
-  destruct (bk_ok cs 0 0) as [clf|] eqn:Ebk; [|discriminate]. apply Nat.eqb_neq in HK12.
   (* glue *)
   assert (Hbits0 : slot_bits es0 = repeat true rows).
   { subst es0. clear. induction rows as [|k IH]; [reflexivity|]. unfold slot_bits in *. cbn [repeat filter is_slot map e_def]. rewrite IH. reflexivity. }
@@ -2625,8 +2622,8 @@ Proof.
   assert (B4 : 0 < mlists (map cmeaning cs) -> hr = true) by (intros H; subst hr; apply N.ltb_lt; rewrite Hmr; exact H).
   assert (B5 : (1 <= length es0)%nat) by (rewrite Hlen0; exact Hrows).
   assert (B6 : (length (st_es (a_layers (map raw_of_call cs) (es0, max_rep, max_def, []))) <= total)%nat) by (subst total es_f st0 rs; lia).
-  destruct (glue hr hd total cs (repeat true rows) es0 max_rep max_def [] O O false outs clf
-                 Hspec Hnf Hbits0 Hspecs0 B1 Hplain0 Hmd B2 B3 B4 Ebk HK3 HK6 B5 B6)
+  destruct (glue hr hd total cs (repeat true rows) es0 max_rep max_def [] O O false outs
+                 Hspec Hnf Hbits0 Hspecs0 B1 Hplain0 Hmd B2 B3 B4 (or_introl eq_refl) HK6 B5 B6)
     as (G1 & G2 & G3 & G4 & G5 & G6).
   fold rs in G1, G2, G3, G4, G5, G6. fold st0 in G1, G2, G3, G4, G5, G6. fold es_f in G5, G6.
   rewrite repeat_length in G5.
@@ -2670,8 +2667,12 @@ Proof.
       destruct (a_layers rs (es0, max_rep, max_def, [])) as [[[esf crf] cdf] msf] eqn:Eal.
       fold st0 in Eal. assert (Eesf : esf = es_f) by (subst es_f; rewrite Eal; reflexivity).
       destruct Hc' as [Hrep Hdef Hsp Hlen Henc Hcr Hcd Hms].
-      unfold ctx_build. rewrite Hlen. fold st0. rewrite G4.
-      replace (Nat.eqb clf 0) with false by (symmetry; apply Nat.eqb_neq; exact HK12).
+      assert (Hnn : forallb is_nonull cs = false).
+      { unfold builder_is_empty in Eempty. rewrite Hbr in Eempty. unfold rs in Eempty. rewrite <- Eempty. clear.
+        induction cs as [|c t IH]; [reflexivity|]. cbn [map forallb]. rewrite IH. f_equal.
+        destruct c as [?|?|? ?|[?|] ? ?]; reflexivity. }
+      unfold ctx_build. rewrite Hlen. fold st0. rewrite (G4 (or_intror Hnn)). fold es_f. fold total.
+      replace (Nat.eqb total 0) with false by (symmetry; apply Nat.eqb_neq; lia).
       unfold a_serialized. rewrite Eal. fold max_rep max_def. fold hr hd. rewrite Hms.
       assert (Htl : total = length esf) by (rewrite Eesf; reflexivity).
       assert (Hpos : (1 <= total)%nat) by lia.
